@@ -38,7 +38,7 @@ ASSUMPTIONS = [
     "lists, strings and arity >= 3 are not generated",
 ]
 
-IMPL_ENV = {"SV_TIMEOUT_MS": "60000"}
+IMPL_ENV = {"SV_TIMEOUT_MS": "20000"}
 
 
 def f_of_bits(b):
@@ -421,6 +421,7 @@ def transient(r):
 
 
 _FOCUS = []     # functors whose extracted rows differ (set by extract(), used by run())
+_EXTRACT_FAILED = []
 
 
 def extract():
@@ -431,6 +432,7 @@ def extract():
         ct, mt = ev.compiled_table(repo), ev.meta_table(repo)
         ev.write_if_changed(os.path.join(core.LEAN, "ScryerModel", "Extracted", "EvalTables.lean"), ev.render(ct, mt))
     except ev.ExtractError as x:
+        _EXTRACT_FAILED.append(str(x))
         return [core.Finding("disagreement", {"family": "extract", "class": "evaluator-tables-not-recognised"},
                              "extract/evaltables.py no longer recognises the dispatch code: %s" % x, None)]
     if ct != mt:
@@ -443,6 +445,11 @@ def extract():
 
 def run(ctx):
     rng, tier = ctx["rng"], ctx["tier"]
+    if _EXTRACT_FAILED:
+        # the dispatch code is no longer what the extractor (and the generator's safety assumptions about operand
+        # order and sizes) understands: reported by extract(); nothing is executed on the implementation
+        return {"evaluations": 0, "distinct_nontrivial": 0, "rule": "extraction failed: " + _EXTRACT_FAILED[0], "samples": [],
+                "traces_validated_against_impl": 0, "disagreements_checked": 0, "findings": []}
     sets = functor_sets()
     un, bi, co = sets
     known = {(f, 1) for f in un} | {(f, 2) for f in bi} | {(f, 0) for f in co}
@@ -489,13 +496,13 @@ def run(ctx):
     t0 = time.time()
     impl, model = diff.run_cases(cases, impl_env=IMPL_ENV)
     retried = 0
-    for attempt in (1, 2):
-        flaky = [c for c in cases if any(transient(impl.get(core.line_id(l), "missing")) for l in c["impl"])]
-        if not flaky:
-            break
-        retried += len(flaky)
-        for c in flaky[:300]:
-            impl.update(core.run_impl(["R\t%s_r" % c["id"]] + c["impl"], env=IMPL_ENV))
+    flaky = [c for c in cases if any(transient(impl.get(core.line_id(l), "missing")) for l in c["impl"])]
+    if flaky:
+        # a few disturbed cases are machine load (or a panic that discarded the machine): run them again, each alone
+        # on a fresh machine. Many of them are a property of the tree under test: judged as they are.
+        retried = min(len(flaky), 12)
+        for c in flaky[:12]:
+            impl.update(core.run_impl(["R\t%s_r" % c["id"]] + c["impl"], env={"SV_TIMEOUT_MS": "20000"}))
     core.log("[C03] correspondence run: %d expressions, %.1fs, %d retried" % (len(cases), time.time() - t0, retried))
 
     findings, agree = [], 0
